@@ -53,11 +53,11 @@ theorem C05_truthy :
 variable (M : Machine) (st : RunSt)
 
 /-- `&&` accepts operands of any types and is the conjunction of their truth values -/
-theorem C05_and_total (l r : Value) : binop M st .and l r = .ok (.bool (l.truthy && r.truthy), st) := by
+theorem C05_and_total (l r : Value) : binop M .and l r = .ok (.bool (l.truthy && r.truthy), []) := by
   simp [binop, vbool, Except.map]
 
 /-- `||` accepts operands of any types and is the disjunction of their truth values -/
-theorem C05_or_total (l r : Value) : binop M st .or l r = .ok (.bool (l.truthy || r.truthy), st) := by
+theorem C05_or_total (l r : Value) : binop M .or l r = .ok (.bool (l.truthy || r.truthy), []) := by
   simp [binop, vbool, Except.map]
 
 /-- `!` negates a boolean however it was produced, gives true for null and false for anything else -/
@@ -76,21 +76,15 @@ theorem C05_run_verdict (obj : HostVal) (fuel : Nat) :
 
 /-- The conditional jump consults `truthy` and nothing else: executing OpJumpIfFalse with `c` on
     top of the stack continues at the next instruction when `c` is truthy and at the operand
-    otherwise (the operand being inside the program). -/
-theorem C05_jif_uses_truthy (obj : HostVal) (code : Bytes) (fuel ip : Nat) (c : Value) (rest : List Value)
-    (hip : ip + 3 ≤ code.length) (hop : (code.getD ip 0).toNat = Op.jumpIfFalse.toNat)
-    (hpoll : M.done st.polls = false) :
-    loop M obj code (fuel + 1) ip (c :: rest) st =
-      (let st' := { st with polls := st.polls + 1 }
-       let target := decode16 (code.getD (ip+1) 0) (code.getD (ip+2) 0)
-       if c.truthy then loop M obj code fuel (ip + 3) rest st'
-       else if target ≥ code.length then (.error (.error "ipOOB"), st')
-       else loop M obj code fuel target rest st') := by
-  have h1 : ¬ (ip ≥ code.length) := by omega
-  have h2 : ¬ (ip + 3 > code.length) := by omega
-  rw [loop]
-  simp only [h1, hpoll, hop, if_false, Bool.false_eq_true]
-  simp [byteLength, Op.ofNat?, Op.toNat, Op.length, isBinary, h2, err]
+    otherwise (the operand being inside the program).  `if`, `else if`, `while`, `for`, `switch`
+    arms, the exit test of `foreach` and the ternary all compile to this one instruction. -/
+theorem C05_jif_uses_truthy (obj : HostVal) (codeLen : Nat) (runBody : Bytes → RunSt → Res × RunSt)
+    (arg next : Nat) (c : Value) (rest : List Value) :
+    step M obj codeLen runBody Op.jumpIfFalse.toNat arg next (c :: rest) st =
+      (if c.truthy then .cont next rest st
+       else if arg ≥ codeLen then .halt (.error (.error "ipOOB")) st
+       else .cont arg rest st) := by
+  simp [step, Op.ofNat?, Op.toNat, isBinary, err]
 
 /-- no decision in the library compares two objects by address -/
 theorem C05_no_identity_comparisons : Generated.identityComparisons = [] := by decide +kernel
